@@ -4,38 +4,42 @@ namespace Cares.Dsa.HTable
 open Cares.Generated
 variable {K V : Type}
 
+/-- what ares_htable_expand may do -/
+def ExpOutcome (ops : HOps K) (t : HTable K V) (r : Bool × HTable K V × Oracle) : Prop :=
+  (r.1 = true ∧ Inv ops r.2.1 ∧ (entries r.2.1).Perm (entries t) ∧ r.2.1.numKeys = t.numKeys ∧
+      (if t.size = HTABLE_MAX_BUCKETS then r.2.1 = t else r.2.1.size = t.size * 2)) ∨
+  (r.1 = false ∧ r.2.1 = t)
+
+theorem expOutcome_fail (ops : HOps K) (t : HTable K V) (o : Oracle) : ExpOutcome ops t (false, t, o) :=
+  Or.inr ⟨rfl, rfl⟩
+
 /-- ares_htable_expand, any oracle: it either completes (every node kept, invariant kept) or reports failure
     and leaves the table exactly as it was — nothing is moved before all memory has been obtained -/
 theorem expand_any (hc : ConstsOk) (ops : HOps K) (hl : Lawful ops) (t : HTable K V) (o : Oracle) (h : Inv ops t) :
-    ((expand ops t o).1 = true ∧ Inv ops (expand ops t o).2.1 ∧ (entries (expand ops t o).2.1).Perm (entries t) ∧
-        (expand ops t o).2.1.numKeys = t.numKeys ∧
-        (if t.size = HTABLE_MAX_BUCKETS then (expand ops t o).2.1 = t else (expand ops t o).2.1.size = t.size * 2)) ∨
-    ((expand ops t o).1 = false ∧ (expand ops t o).2.1 = t) := by
-  -- the successful run with an all-ok oracle tells what the move loop does; the loop itself never consults the oracle
+    ExpOutcome ops t (expand ops t o) := by
   unfold expand
   by_cases hmax : t.size = HTABLE_MAX_BUCKETS
-  · simp only [hmax, ↓reduceIte]
-    left; exact ⟨trivial, h, List.Perm.refl _, trivial, trivial⟩
-  · simp only [hmax, ↓reduceIte]
+  · rw [if_pos hmax]
+    exact Or.inl ⟨rfl, h, List.Perm.refl _, rfl, by rw [if_pos hmax]⟩
+  · rw [if_neg hmax]
     cases h1 : o.next with
     | mk b1 o1 =>
       cases b1 with
-      | false => right; exact ⟨rfl, rfl⟩
+      | false => exact expOutcome_fail ops t o1
       | true =>
         simp only
         cases h2 : (if t.numCollisions ≠ 0 then o1.next else (true, o1)) with
         | mk b2 o2 =>
           cases b2 with
-          | false => right; exact ⟨rfl, rfl⟩
+          | false => exact expOutcome_fail ops t o2
           | true =>
             simp only
             cases h3 : o2.nextN t.numCollisions with
             | mk b3 o3 =>
               cases b3 with
-              | false => right; exact ⟨rfl, rfl⟩
+              | false => exact expOutcome_fail ops t o3
               | true =>
                 simp only
-                left
                 have hs := size_pos hc ops t h
                 obtain ⟨x, ex, ix, px⟩ := moveAll_spec ops (t.size * 2) t.buckets
                   { nb := List.replicate (t.size * 2) none, pre := t.numCollisions, coll := 0 }
@@ -49,12 +53,12 @@ theorem expand_any (hc : ConstsOk) (ops : HOps K) (hl : Lawful ops) (t : HTable 
                   have := px
                   simp only [ents_replicate_none, List.append_nil] at this
                   exact this
-                refine ⟨rfl, ⟨ix.len, hd2, hd1, ?_, ?_, ?_, ix.coll, ?_⟩, hperm, rfl, rfl⟩
+                refine Or.inl ⟨rfl, ⟨ix.len, hd2, hd1, ?_, ?_, ?_, ix.coll, ?_⟩, hperm, rfl, by rw [if_neg hmax]⟩
                 · intro i l hi e he; exact (ix.placed i l hi).2 e he
                 · exact pairwise_perm ops hl _ _ hperm.symm h.uniq
-                · simp only; rw [h.nkeys]; exact hperm.length_eq.symm
+                · show t.numKeys = _; rw [h.nkeys]; exact hperm.length_eq.symm
                 · left
-                  simp only
+                  show t.numKeys ≤ t.size * 2 * HTABLE_EXPAND_PERCENT / 100
                   rcases h.load with hld | hld
                   · refine Nat.le_trans hld (Nat.div_le_div_right ?_)
                     rw [Nat.mul_right_comm]; exact Nat.le_mul_of_pos_right _ (by omega)
@@ -99,17 +103,39 @@ theorem abs_of_entries_perm (ops : HOps K) (hl : Lawful ops) (t t' : HTable K V)
     (hu : KeysDiffer ops (entries t')) (q : K) : abs ops t' q = abs ops t q := by
   unfold abs; exact find?_perm ops hl _ _ hp hu q
 
+/-- the growth step of ares_htable_insert (expand, or nothing when the threshold is not crossed) -/
+def GrowOutcome (ops : HOps K) (t : HTable K V) (r : Bool × HTable K V × Oracle) : Prop :=
+  (r.1 = true ∧ Inv ops r.2.1 ∧ (entries r.2.1).Perm (entries t) ∧ r.2.1.numKeys = t.numKeys) ∨
+  (r.1 = false ∧ r.2.1 = t)
+
+theorem ExpOutcome.grow {ops : HOps K} {t : HTable K V} {r : Bool × HTable K V × Oracle} (h : ExpOutcome ops t r) :
+    GrowOutcome ops t r := by
+  rcases h with ⟨a, b, c, d, _⟩ | h
+  · exact Or.inl ⟨a, b, c, d⟩
+  · exact Or.inr h
+
+/-- what ares_htable_insert may do -/
+def InsOutcome (ops : HOps K) (t : HTable K V) (k : K) (v : V) (r : Bool × HTable K V × Oracle) : Prop :=
+  Inv ops r.2.1 ∧
+    (r.1 = true → (∀ q, abs ops r.2.1 q = if ops.eq q k then some (k, v) else abs ops t q) ∧
+      r.2.1.numKeys = (if (abs ops t k).isSome then t.numKeys else t.numKeys + 1)) ∧
+    (r.1 = false → (∀ q, abs ops r.2.1 q = abs ops t q) ∧ r.2.1.numKeys = t.numKeys)
+
+theorem insOutcome_fail (ops : HOps K) (t t1 : HTable K V) (k : K) (v : V) (o : Oracle) (i1 : Inv ops t1)
+    (ha : ∀ q, abs ops t1 q = abs ops t q) (hn : t1.numKeys = t.numKeys) : InsOutcome ops t k v (false, t1, o) :=
+  ⟨i1, fun hh => Bool.noConfusion hh, fun _ => ⟨ha, hn⟩⟩
+
+theorem insOutcome_ok (ops : HOps K) (t t1 : HTable K V) (k : K) (v : V) (o : Oracle) (i1 : Inv ops t1)
+    (ha : ∀ q, abs ops t1 q = if ops.eq q k then some (k, v) else abs ops t q)
+    (hn : t1.numKeys = (if (abs ops t k).isSome then t.numKeys else t.numKeys + 1)) :
+    InsOutcome ops t k v (true, t1, o) :=
+  ⟨i1, fun _ => ⟨ha, hn⟩, fun hh => Bool.noConfusion hh⟩
+
 /-- **ares_htable_insert under any allocation failure**: the result always satisfies the invariant; if the call
     reports success the table maps `k` to the new node; if it reports failure every key maps to what it mapped to
     before and the key count is unchanged (the table may have grown, which is not observable) -/
 theorem insert_any (hc : ConstsOk) (ops : HOps K) (hl : Lawful ops) (t : HTable K V) (k : K) (v : V) (o : Oracle)
-    (h : Inv ops t) :
-    Inv ops (insert ops t k v o).2.1 ∧
-      ((insert ops t k v o).1 = true →
-        (∀ q, abs ops (insert ops t k v o).2.1 q = if ops.eq q k then some (k, v) else abs ops t q) ∧
-        (insert ops t k v o).2.1.numKeys = (if (abs ops t k).isSome then t.numKeys else t.numKeys + 1)) ∧
-      ((insert ops t k v o).1 = false →
-        (∀ q, abs ops (insert ops t k v o).2.1 q = abs ops t q) ∧ (insert ops t k v o).2.1.numKeys = t.numKeys) := by
+    (h : Inv ops t) : InsOutcome ops t k v (insert ops t k v o) := by
   have hs := size_pos hc ops t h
   have hfind : findIn ops k (bucketAt t.buckets (hidx ops t.size k)) = abs ops t k :=
     find_bucket_eq_find_all ops hl t.buckets t.size h.placed h.uniq k
@@ -120,25 +146,24 @@ theorem insert_any (hc : ConstsOk) (ops : HOps K) (hl : Lawful ops) (t : HTable 
       unfold insert; simp only [hf]
     obtain ⟨t', o', e, _, i', a, n, _⟩ := insert_spec hc ops hl t k v Oracle.ok h (fun _ => rfl)
     rw [hsame, e]
-    exact ⟨i', fun _ => ⟨a, n⟩, fun hh => by cases hh⟩
+    exact insOutcome_ok ops t t' k v o i' a n
   | none =>
     have hnone : abs ops t k = none := by rw [← hfind, hf]
+    unfold insert
+    simp only [hf]
     -- stage 1: growth
-    have st1 : ((if t.numKeys + 1 > t.size * HTABLE_EXPAND_PERCENT / 100 then expand ops t o else (true, t, o)).1 = false ∧
-          (if t.numKeys + 1 > t.size * HTABLE_EXPAND_PERCENT / 100 then expand ops t o else (true, t, o)).2.1 = t) ∨
-        ((if t.numKeys + 1 > t.size * HTABLE_EXPAND_PERCENT / 100 then expand ops t o else (true, t, o)).1 = true ∧
-          Inv ops (if t.numKeys + 1 > t.size * HTABLE_EXPAND_PERCENT / 100 then expand ops t o else (true, t, o)).2.1 ∧
-          (entries (if t.numKeys + 1 > t.size * HTABLE_EXPAND_PERCENT / 100 then expand ops t o else (true, t, o)).2.1).Perm (entries t) ∧
-          (if t.numKeys + 1 > t.size * HTABLE_EXPAND_PERCENT / 100 then expand ops t o else (true, t, o)).2.1.numKeys = t.numKeys ∧
+    have st1 : GrowOutcome ops t (if t.numKeys + 1 > t.size * HTABLE_EXPAND_PERCENT / 100 then expand ops t o else (true, t, o)) ∧
+        ((if t.numKeys + 1 > t.size * HTABLE_EXPAND_PERCENT / 100 then expand ops t o else (true, t, o)).1 = true →
           ((if t.numKeys + 1 > t.size * HTABLE_EXPAND_PERCENT / 100 then expand ops t o else (true, t, o)).2.1.numKeys + 1 ≤
               (if t.numKeys + 1 > t.size * HTABLE_EXPAND_PERCENT / 100 then expand ops t o else (true, t, o)).2.1.size * HTABLE_EXPAND_PERCENT / 100 ∨
             (if t.numKeys + 1 > t.size * HTABLE_EXPAND_PERCENT / 100 then expand ops t o else (true, t, o)).2.1.size = HTABLE_MAX_BUCKETS)) := by
       by_cases hg : t.numKeys + 1 > t.size * HTABLE_EXPAND_PERCENT / 100
       · rw [if_pos hg]
-        rcases expand_any hc ops hl t o h with ⟨e1, i1, p1, n1, sz1⟩ | ⟨e1, e2⟩
-        · right
-          refine ⟨e1, i1, p1, n1, ?_⟩
-          by_cases hmax : t.size = HTABLE_MAX_BUCKETS
+        have he := expand_any hc ops hl t o h
+        refine ⟨he.grow, ?_⟩
+        intro htrue
+        rcases he with ⟨e1, i1, p1, n1, sz1⟩ | ⟨e1, e2⟩
+        · by_cases hmax : t.size = HTABLE_MAX_BUCKETS
           · rw [if_pos hmax] at sz1; rw [sz1]; exact Or.inr hmax
           · rw [if_neg hmax] at sz1
             left
@@ -152,51 +177,51 @@ theorem insert_any (hc : ConstsOk) (ops : HOps K) (hl : Lawful ops) (t : HTable 
               Nat.le_trans hc.load_ok (Nat.mul_le_mul_right _ hmin)
             rw [Nat.mul_right_comm]
             omega
-        · left; exact ⟨e1, e2⟩
+        · rw [e1] at htrue; cases htrue
       · rw [if_neg hg]
-        right; exact ⟨rfl, h, List.Perm.refl _, rfl, Or.inl (by show t.numKeys + 1 ≤ _; omega)⟩
-    unfold insert
-    simp only [hf]
-    generalize hr : (if t.numKeys + 1 > t.size * HTABLE_EXPAND_PERCENT / 100 then expand ops t o else (true, t, o)) = r at st1
+        refine ⟨Or.inl ⟨rfl, h, List.Perm.refl _, rfl⟩, fun _ => Or.inl ?_⟩
+        · show t.numKeys + 1 ≤ t.size * HTABLE_EXPAND_PERCENT / 100; omega
+    generalize (if t.numKeys + 1 > t.size * HTABLE_EXPAND_PERCENT / 100 then expand ops t o else (true, t, o)) = r at st1
     obtain ⟨b1, t1, o1⟩ := r
-    rcases st1 with ⟨e1, e2⟩ | ⟨e1, i1, p1, n1, room1⟩
-    · simp only at e1 e2
-      subst e1; subst e2
-      exact ⟨h, fun hh => by cases hh, fun _ => ⟨fun _ => rfl, rfl⟩⟩
-    · simp only at e1 i1 p1 n1 room1
-      subst e1
+    obtain ⟨out1, room⟩ := st1
+    rcases out1 with ⟨e1, i1, p1, n1⟩ | ⟨e1, e2⟩
+    · have e1' : b1 = true := e1
+      subst e1'
+      have i1' : Inv ops t1 := i1
+      have p1' : (entries t1).Perm (entries t) := p1
+      have n1' : t1.numKeys = t.numKeys := n1
+      have room1 : t1.numKeys + 1 ≤ t1.size * HTABLE_EXPAND_PERCENT / 100 ∨ t1.size = HTABLE_MAX_BUCKETS := room rfl
       simp only
-      have hs1 := size_pos hc ops t1 i1
+      have hs1 := size_pos hc ops t1 i1'
       have hlt1 := hidx_lt ops t1.size k hs1
-      have hlen1 : hidx ops t1.size k < t1.buckets.length := by rw [i1.len]; exact hlt1
-      have habs1 : ∀ q, abs ops t1 q = abs ops t q := abs_of_entries_perm ops hl t t1 p1 i1.uniq
+      have hlen1 : hidx ops t1.size k < t1.buckets.length := by rw [i1'.len]; exact hlt1
+      have habs1 : ∀ q, abs ops t1 q = abs ops t q := abs_of_entries_perm ops hl t t1 p1' i1'.uniq
       have hnone1 : abs ops t1 k = none := by rw [habs1]; exact hnone
-      obtain ⟨inv2, perm2⟩ := add_node ops hl t1 i1 k v hlt1 hnone1 room1
+      obtain ⟨inv2, perm2⟩ := add_node ops hl t1 i1' k v hlt1 hnone1 room1
       have habs : ∀ (t' : HTable K V), t'.buckets = t1.buckets.set (hidx ops t1.size k)
             (some ((k, v) :: bucketAt t1.buckets (hidx ops t1.size k))) → KeysDiffer ops (entries t') →
           ∀ q, abs ops t' q = if ops.eq q k then some (k, v) else abs ops t q := by
         intro t' hb hu q
         unfold abs
         have hp' : (entries t').Perm ((k, v) :: entries t) := by
-          unfold entries; rw [hb]; exact perm2.trans (List.Perm.cons _ p1)
+          unfold entries; rw [hb]; exact perm2.trans (List.Perm.cons _ p1')
         rw [find?_cons_perm ops hl _ _ (k, v) hp' hu q]
+      have hcount : t1.numKeys + 1 = (if (abs ops t k).isSome then t.numKeys else t.numKeys + 1) := by
+        rw [hnone, n1']; rfl
       by_cases hnull : slotNull t1.buckets (hidx ops t1.size k) = true
       · simp only [hnull, ↓reduceIte]
         cases ha : o1.next with
         | mk b2 o2 =>
           cases b2 with
-          | false =>
-            simp only
-            exact ⟨i1, fun hh => by cases hh, fun _ => ⟨habs1, n1⟩⟩
+          | false => exact insOutcome_fail ops t t1 k v o2 i1' habs1 n1'
           | true =>
             simp only
-            obtain ⟨ie, ee⟩ := set_empty_bucket ops t1 _ i1 hlt1 hnull
+            obtain ⟨ie, ee⟩ := set_empty_bucket ops t1 _ i1' hlt1 hnull
             cases hb' : o2.next with
             | mk b3 o3 =>
               cases b3 with
               | false =>
-                simp only
-                refine ⟨ie, fun hh => by cases hh, fun _ => ⟨?_, n1⟩⟩
+                refine insOutcome_fail ops t _ k v o3 ie ?_ n1'
                 intro q
                 rw [← habs1 q]
                 exact abs_of_entries_perm ops hl t1 _ (by rw [ee]) ie.uniq q
@@ -206,19 +231,17 @@ theorem insert_any (hc : ConstsOk) (ops : HOps K) (hl : Lawful ops) (t : HTable 
                 rw [hb0] at inv2 habs
                 rw [bucketAt_set_self _ _ hlen1, List.set_set]
                 simp only [List.length_cons, List.length_nil, Nat.zero_add, Nat.lt_irrefl, ↓reduceIte, gt_iff_lt] at inv2 ⊢
-                refine ⟨inv2, fun _ => ⟨habs _ rfl inv2.uniq, ?_⟩, fun hh => by cases hh⟩
-                simp only [n1, hnone, Option.isSome_none, Bool.false_eq_true, ↓reduceIte]
+                exact insOutcome_ok ops t _ k v o3 inv2 (habs _ rfl inv2.uniq) hcount
       · have hnull' : slotNull t1.buckets (hidx ops t1.size k) = false := by simpa using hnull
         simp only [hnull', Bool.false_eq_true, ↓reduceIte]
         cases hb' : o1.next with
         | mk b3 o3 =>
           cases b3 with
-          | false =>
-            simp only
-            exact ⟨i1, fun hh => by cases hh, fun _ => ⟨habs1, n1⟩⟩
-          | true =>
-            simp only
-            refine ⟨inv2, fun _ => ⟨habs _ rfl inv2.uniq, ?_⟩, fun hh => by cases hh⟩
-            simp only [n1, hnone, Option.isSome_none, Bool.false_eq_true, ↓reduceIte]
+          | false => exact insOutcome_fail ops t t1 k v o3 i1' habs1 n1'
+          | true => exact insOutcome_ok ops t _ k v o3 inv2 (habs _ rfl inv2.uniq) hcount
+    · have e1' : b1 = false := e1
+      have e2' : t1 = t := e2
+      subst e1'; subst e2'
+      exact insOutcome_fail ops t1 t1 k v o1 h (fun _ => rfl) rfl
 
 end Cares.Dsa.HTable
